@@ -10,6 +10,7 @@ mod rpkigen;
 mod etree;
 mod prom;
 mod sched;
+mod rrdpsrv;
 
 use std::path::{Path, PathBuf};
 use std::process::{Command, Stdio};
